@@ -499,7 +499,10 @@ Definition successors (order : list skey) (next : nat) (e : oev) (s : sys) : lis
           match st (LDropStart sid) s with
           | Some s1 => match s_rule x with
                        | None => match r with AOk _ => [s1] | _ => [] end
-                       | Some _ => keep ares_eqb r (poll_task (length (tasks s1) - 1) s1)
+                       | Some _ =>
+                           (* not the last holder of the shared rule: nothing to give back, the drop is over at once *)
+                           if Nat.eqb (length (tasks s1)) (length (tasks s)) then match r with AOk _ => [s1] | _ => [] end
+                           else keep ares_eqb r (poll_task (length (tasks s1) - 1) s1)
                        end
           | None => []
           end
